@@ -33,7 +33,7 @@ def new_case(w, rng, *, depth=None, roots=("st", "ar", "str", "ur"), tg_kw=None,
     c.t = c.tg.root(allow=roots)
     c.cache = {}
     c.cls = build(c.t, c.cache)
-    c.vg = ValGen(rng, **(vg_kw or {}))
+    c.vg = ValGen(rng, **dict(dict(cap_strings=0.08), **(vg_kw or {})))
     c.mv = c.vg.value(c.t)
     c.env = Env(rng, ctx=ctxs()[0], **(env_kw or {}))
     c.mode = rng.choice(modes)
